@@ -1,4 +1,5 @@
 PROPERTY = dict(
+    jobs=8,   # queries of 3-5 GB each: keep the total well under the machine's memory
     level='model_checking',
     level_text='Bounded model checking of the real encoders/decoders: scalar, string, FileInfo, signature codecs as bijections with a fixed little-endian layout (all field values), BuildKey makers/accessors/kind tags for names of the stated length (all bytes incl. NUL), and BuildValue encode-decode-encode for every payload shape (all 18 kinds, 1..2 output infos, 1..2 strings). Inside the bounds every value is covered by the solver.',
     level_note='Trusted: clang-14 -O1 IR, ir2c (validated each run), CBMC+SAT, real libstdc++ string/vector code, size-class model of operator new. The encoder is kept below its 256-byte inline buffer (growth is flagged as outside bound).',
